@@ -2784,6 +2784,14 @@ class Processor:
                             except_segment
                         )
 
+                    if depth + 1 < len(segments):
+                        # The members of a Set are scalars
+                        raise YAMLPathException(
+                            "Cannot add {} subreference to scalars".format(
+                                str(segments[depth + 1][0])),
+                            str(yaml_path),
+                            str(yaml_path))
+
                     data.add(stripped_attrs)
                     yield NodeCoords(
                         data, parent, parentref,
